@@ -1,4 +1,4 @@
 From CV Require Import Core.Arith Core.Reader Core.ReadOps Core.Builder Value.ValueEq Value.EqualM Value.CanonSpec Value.CanonM Value.Harness.
 From Coq Require Import ExtrOcamlBasic.
 Extraction Language OCaml.
-Extraction "value_model.ml" run_equal spec_equal spec_equal_v spec_equal_big run_canon spec_canon spec_canon_v spec_canon_big spec_recanon mkCfg mkFix mkEFix mkCFix.
+Extraction "value_model.ml" run_equal spec_equal spec_equal_v spec_equal_big run_canon spec_canon spec_canon_v spec_canon_big spec_recanon select select_member run_canon_p spec_canon_v_p init_rlimit mkCfg mkFix mkEFix mkCFix.
